@@ -523,3 +523,178 @@ def m_dateutil_parse(E, a, kw):
     if E.branch(OK(arr)):
         return VOpaque('datetime', P(arr))
     _raise(E, ValueError, 'Unknown string format')
+
+
+# ================================================================================================
+# symbolic message dicts for the loop-invariant proofs over ALL element subsets (bits 2..127)
+# ================================================================================================
+FV = z3.DeclareSort('FieldValue')
+VAL = z3.Function('MSG_VAL', z3.IntSort(), FV)                  # value stored under 'DE<b>' (meaningful when present)
+TRUTHY = z3.Function('MSG_TRUTHY', z3.IntSort(), z3.BoolSort())     # bool(message.get('DE<b>'))
+ISZERO = z3.Function('MSG_ISZERO', z3.IntSort(), z3.BoolSort())     # message.get('DE<b>') == 0
+
+
+def msg_present(b):
+    """what the encoder treats as `element b is present`"""
+    return z3.Or(TRUTHY(b), ISZERO(b))
+
+
+def de_key_bit(key):
+    """bit term t when key is the string 'DE' + str(t), else None"""
+    if not isinstance(key, VSeq) or key.kind != 'str':
+        return None
+    cs = conc_str(key)
+    if cs is not None:
+        if cs.startswith('DE') and cs[2:].isdigit() and str(int(cs[2:])) == cs[2:]:
+            return z3.IntVal(int(cs[2:]))
+        return None
+    parts = seq_parts(key)
+    if parts and len(parts) == 2 and parts[0] == ('lit', 'DE') and parts[1][0] == 'dec':
+        return parts[1][1]
+    return None
+
+
+class SymMsg:
+    """a message dict holding 'MTI' and an ARBITRARY subset of the keys DE2..DE127 (no PDS keys): entries are described by the
+    uninterpreted functions above, so one symbolic execution covers every subset"""
+
+    def __init__(self, mti):
+        self.mti = mti
+
+    def truth(self, E):
+        return z3.BoolVal(True)
+
+    def get(self, E, ref, key, strict, default):
+        if conc_str(key) == 'MTI':
+            return self.mti
+        t = de_key_bit(key)
+        if t is None:
+            raise Unsupported('symbolic message: lookup of %r' % (key,))
+        if strict:
+            if E.branch(z3.Not(msg_present(t))):
+                _raise(E, KeyError, 'key')
+        return VOpaque('fieldval', VAL(t))
+
+    def contains(self, E, item):
+        raise Unsupported('symbolic message: `in`')
+
+    def iter_keys(self, E):
+        raise Unsupported('symbolic message: iteration')
+
+    def set(self, E, ref, key, val):
+        raise Unsupported('symbolic message: store')
+
+
+class FieldRes:
+    """the dict returned by _iso8583_to_field for element `bit` (abstract)"""
+
+    def __init__(self, bit):
+        self.bit = bit
+
+    def truth(self, E):
+        return z3.BoolVal(True)
+
+
+class MsgDict:
+    """result dict of the decoder while walking the bitmap: the concrete `base` entries plus, for every flagged element b with
+    2 <= b < upto, the entries _iso8583_to_field returned for it - nothing else"""
+
+    def __init__(self, base, upto):
+        self.base = dict(base)
+        self.upto = upto
+
+    def truth(self, E):
+        return z3.BoolVal(True)
+
+    def update(self, E, ref, other):
+        od = E.getf(other, 'val')
+        if not isinstance(od, FieldRes):
+            raise Unsupported('symbolic result dict: update with %r' % (od,))
+        E.prove('result-dict/elements-added-in-bitmap-order', od.bit == self.upto, 'I', 'inv')
+        E.setf(ref, 'val', MsgDict(self.base, z3.simplify(self.upto + 1)))
+        return NONE
+
+    def get(self, E, ref, key, strict, default):
+        k = conc_str(key)
+        if k in self.base:
+            return self.base[k]
+        raise Unsupported('symbolic result dict: lookup of %r' % (key,))
+
+    def set(self, E, ref, key, val):
+        k = conc_str(key)
+        if k is None:
+            raise Unsupported('symbolic result dict: symbolic key store')
+        b = dict(self.base)
+        b[k] = val
+        E.setf(ref, 'val', MsgDict(b, self.upto))
+
+
+# ---- abstract field configuration table (loop-level proofs hold for ANY configuration) -----------------------------
+CONFIGURED = z3.Function('CFG_CONFIGURED', z3.IntSort(), z3.BoolSort())
+CFGV = z3.DeclareSort('CfgValue')
+CFGVAL = z3.Function('CFG_VALUE', z3.IntSort(), z3.IntSort(), CFGV)       # (bit, attribute id) -> value
+CFGEQ = z3.Function('CFG_VALUE_EQ', CFGV, z3.IntSort(), z3.BoolSort())    # value == <literal #id>
+_ATTR_IDS = {}
+
+
+def _attr_id(name):
+    return _ATTR_IDS.setdefault(name, len(_ATTR_IDS))
+
+
+def key_bit(key):
+    """bit term of a configuration key: '7' or str(t)"""
+    if not isinstance(key, VSeq) or key.kind != 'str':
+        return None
+    cs = conc_str(key)
+    if cs is not None:
+        return z3.IntVal(int(cs)) if cs.isdigit() and str(int(cs)) == cs else None
+    if key.tag and key.tag[0] == 'dec':
+        return key.tag[1]
+    return None
+
+
+class CfgEntry:
+    """bit_config[str(b)] of an arbitrary configuration: attribute values are uninterpreted"""
+
+    def __init__(self, bit):
+        self.bit = bit
+
+    def truth(self, E):
+        return z3.BoolVal(True)
+
+    def get(self, E, ref, key, strict, default):
+        k = conc_str(key)
+        if k is None:
+            raise Unsupported('abstract configuration entry: symbolic attribute name')
+        return VOpaque('cfgval', CFGVAL(self.bit, _attr_id(k)))
+
+
+class SymCfg:
+    """an arbitrary field configuration table: which bits are configured is the uninterpreted predicate CONFIGURED"""
+
+    def __init__(self, keys):
+        self.keys = list(keys)
+
+    def truth(self, E):
+        return z3.BoolVal(True)
+
+    def get(self, E, ref, key, strict, default):
+        t = key_bit(key)
+        if t is None:
+            raise Unsupported('abstract configuration: lookup of %r' % (key,))
+        if E.branch(CONFIGURED(t)):
+            return E.new_cell({'__kind__': 'dict', 'val': CfgEntry(t)})
+        if strict:
+            _raise(E, KeyError, 'bit')
+        return default
+
+    def iter_keys(self, E):
+        for k in self.keys:
+            E.fact(CONFIGURED(z3.IntVal(int(k))))          # keys produced by iterating the table are its keys
+        return [lift(k) for k in self.keys]
+
+    def contains(self, E, item):
+        t = key_bit(item)
+        if t is None:
+            raise Unsupported('abstract configuration: `in`')
+        return CONFIGURED(t)
